@@ -41,6 +41,12 @@ def main():
                 elif c.returncode == 2:
                     hits[pid] = ['EXIT2 ' + (errs[0][:200] if errs else '')]
             out[os.path.basename(d)] = hits
+            mp = os.path.join(d, 'meta.json')
+            if os.path.exists(mp):
+                meta = json.load(open(mp))
+                meta['detected_by'] = {k: [x.split(' construct=')[0].replace('rule=', '') + ' :: ' + x.split(' construct=')[-1] for x in v] for k, v in hits.items()}
+                meta['detected'] = bool(hits)
+                json.dump(meta, open(mp, 'w'), indent=1)
             print(f'== {os.path.basename(d)}: ' + (', '.join(f'{k}({len(v)})' for k, v in hits.items()) or 'NOT DETECTED'))
             for k, v in hits.items():
                 for l in v[:4]:
